@@ -229,7 +229,7 @@ func TestVerif_C11(t *testing.T) {
 	}
 
 	// answers with overlapping lifetimes and concurrent requests (see vf11.Overlapped)
-	vf11.OverlapPhase(r, "engine", 0, r.Pick(60, 400), r.Pick(2, 10), func(rng *rand.Rand) vf11.Call {
+	vf11.OverlapPhase(r, "engine", 0, r.Pick(300, 1500), r.Pick(2, 10), func(rng *rand.Rand) vf11.Call {
 		o := items[rng.IntN(len(items))].o
 		if rng.IntN(2) == 0 { // larger payloads half of the time
 			o = items[len(items)-1-rng.IntN(3*nBig)].o
